@@ -27,7 +27,7 @@ structure Mods where
   ctrl : Bool := false
   capslock : Bool := false
   numlock : Bool := false
-deriving Repr, DecidableEq, BEq, Inhabited
+deriving Repr, DecidableEq, Inhabited
 
 def Mods.isNone (m : Mods) : Bool := !m.shift && !m.ctrl && !m.capslock && !m.numlock
 
@@ -37,7 +37,7 @@ structure KeyEvent where
   code : Nat
   unicode : Nat
   mods : Mods := {}
-deriving Repr, DecidableEq, BEq, Inhabited
+deriving Repr, DecidableEq, Inhabited
 
 /- `KeyCode` discriminants used by name in the editor (checked against the generated enum by
    `Chewing.keycodes_agree` in Proofs/EditorBasics.lean) -/
@@ -74,29 +74,29 @@ def KeyEvent.isPrintable (ev : KeyEvent) : Bool := ev.unicode != 65533
 /-- `EditorKeyBehavior` -/
 inductive KB where
   | ignore | commit | bell | absorb
-deriving Repr, DecidableEq, BEq, Inhabited
+deriving Repr, DecidableEq, Inhabited
 
 /-- `zhuyin_layout::KeyBehavior` -/
 inductive LayoutBeh where
   | ignore | absorb | commit | keyError | error | noWord | openSymbolTable
   | fuzzy (syl : Nat)
-deriving Repr, DecidableEq, BEq, Inhabited
+deriving Repr, DecidableEq, Inhabited
 
 inductive LangMode where
   | chinese | english
-deriving Repr, DecidableEq, BEq, Inhabited
+deriving Repr, DecidableEq, Inhabited
 
 inductive CharForm where
   | half | full
-deriving Repr, DecidableEq, BEq, Inhabited
+deriving Repr, DecidableEq, Inhabited
 
 inductive AddDir where
   | forward | backward
-deriving Repr, DecidableEq, BEq, Inhabited
+deriving Repr, DecidableEq, Inhabited
 
 inductive EngineKind where
   | simple | chewing | fuzzy
-deriving Repr, DecidableEq, BEq, Inhabited
+deriving Repr, DecidableEq, Inhabited
 
 /-- `struct EditorOptions` (field order of the struct) -/
 structure Options where
@@ -114,7 +114,7 @@ structure Options where
   lookupStrategy : Strategy := .standard
   conversionEngine : EngineKind := .chewing
   enableFullwidthToggleKey : Bool := true
-deriving Repr, DecidableEq, BEq, Inhabited
+deriving Repr, DecidableEq, Inhabited
 
 /-! ### symbol tables (`src/conversion/symbol.rs`) -/
 
@@ -151,31 +151,31 @@ structure PhraseSel where
   orig : Nat
   strategy : Strategy
   com : Composition
-deriving Repr, DecidableEq, BEq, Inhabited
+deriving Repr, DecidableEq, Inhabited
 
 /-- `struct SymbolSelector`: categories (name, table index or none = leaf), tables, cursor -/
 structure SymSel where
   category : List (Text × Option Nat) := []
   table : List Text := []
   cursor : Option Nat := none
-deriving Repr, DecidableEq, BEq, Inhabited
+deriving Repr, DecidableEq, Inhabited
 
 inductive Selector where
   | phrase (s : PhraseSel)
   | symbol (s : SymSel)
   | special (sym : Sym)
-deriving Repr, DecidableEq, BEq, Inhabited
+deriving Repr, DecidableEq, Inhabited
 
 inductive SelAction where
   | insert | replace
-deriving Repr, DecidableEq, BEq, Inhabited
+deriving Repr, DecidableEq, Inhabited
 
 /-- `struct Selecting` -/
 structure Selecting where
   pageNo : Nat
   action : SelAction
   sel : Selector
-deriving Repr, DecidableEq, BEq, Inhabited
+deriving Repr, DecidableEq, Inhabited
 
 /-- the four editor states -/
 inductive St where
@@ -183,7 +183,7 @@ inductive St where
   | enteringSyllable
   | selecting (s : Selecting)
   | highlighting (moving : Nat)
-deriving Repr, DecidableEq, BEq, Inhabited
+deriving Repr, DecidableEq, Inhabited
 
 /-! ### environment: the components the editor calls -/
 
@@ -656,7 +656,7 @@ end Shared
 inductive Trans where
   | toState (s : St)
   | spin (b : KB)
-deriving Repr, DecidableEq, BEq, Inhabited
+deriving Repr, DecidableEq, Inhabited
 
 abbrev StepRes (D L : Type) := Outcome (Shared D L × Trans)
 
@@ -730,20 +730,31 @@ def insertChars (com : CompEditor) : List Nat → Outcome CompEditor
     | .panic p => .panic p
     | .outOfFuel => .outOfFuel
 
+/-- full-width replacement of the key's character, or the `unwrap()` panic -/
+def fullOrPanic (ev : KeyEvent) (k : Nat → StepRes D L) : StepRes D L :=
+  match fullWidthSymbolInput ev.unicode with
+  | some c => k c
+  | none => .panic "full-width-unwrap"
+
+/-- commit / insert the key's character in the current character form -/
+def inputChar (sh : Shared D L) (ev : KeyEvent) : StepRes D L :=
+  match sh.options.characterForm with
+  | .half => commitOrInsert sh ev.unicode
+  | .full => fullOrPanic ev fun c => commitOrInsert sh c
+
+/-- Chinese mode, key not taken by the phonetic layout: special symbol, printable character, or bell -/
+def chineseFallback (sh : Shared D L) (ev : KeyEvent) : StepRes D L :=
+  match specialSymbolInput ev.unicode with
+  | some s => withCom sh (sh.com.insert (.chr s)) fun sh => .ok (sh, .spin .absorb)
+  | none => if ev.isPrintable then inputChar sh ev else .ok (sh, .spin .bell)
+
 /-- `impl State for Entering`, the catch-all arm (`_ => …`) -/
 def enteringDefault (sh : Shared D L) (ev : KeyEvent) : StepRes D L :=
-  let fullOrPanic (k : Nat → StepRes D L) : StepRes D L :=
-    match fullWidthSymbolInput ev.unicode with
-    | some c => k c
-    | none => .panic "full-width-unwrap"
   match sh.options.languageMode with
   | .chinese =>
     if ev.code == KC.grave && ev.mods.isNone then
       .ok (sh, .toState (.selecting (newSymbol sh)))
-    else if ev.code == KC.space then
-      match sh.options.characterForm with
-      | .half => commitOrInsert sh ev.unicode
-      | .full => fullOrPanic fun c => commitOrInsert sh c
+    else if ev.code == KC.space then inputChar sh ev
     else if sh.options.easySymbolInput then
       match (sh.abbr.find? (fun p => p.1 == ev.unicode)).map (·.2) with
       | some expanded => withCom sh (insertChars sh.com expanded) fun sh => .ok (sh, .spin .absorb)
@@ -752,142 +763,140 @@ def enteringDefault (sh : Shared D L) (ev : KeyEvent) : StepRes D L :=
         | some s => withCom sh (sh.com.insert (.chr s)) fun sh => .ok (sh, .spin .absorb)
         | none =>
           if ev.mods.isNone then
-            let (beh, syl') := env.keyPress sh.syl ev
-            if beh == .absorb then .ok ({ sh with syl := syl' }, .toState .enteringSyllable)
-            else .ok ({ sh with syl := syl' }, .spin .bell)
+            if (env.keyPress sh.syl ev).1 == .absorb then
+              .ok ({ sh with syl := (env.keyPress sh.syl ev).2 }, .toState .enteringSyllable)
+            else .ok ({ sh with syl := (env.keyPress sh.syl ev).2 }, .spin .bell)
           else .ok (sh, .spin .bell)
-    else
-      let tryLayout : Option (Shared D L) × Shared D L :=
-        if ev.mods.isNone then
-          let (beh, syl') := env.keyPress sh.syl ev
-          if beh == .absorb then (some { sh with syl := syl' }, sh) else (none, { sh with syl := syl' })
-        else (none, sh)
-      match tryLayout with
-      | (some sh', _) => .ok (sh', .toState .enteringSyllable)
-      | (none, sh) =>
-        match specialSymbolInput ev.unicode with
-        | some s => withCom sh (sh.com.insert (.chr s)) fun sh => .ok (sh, .spin .absorb)
-        | none =>
-          if ev.isPrintable then
-            match sh.options.characterForm with
-            | .half => commitOrInsert sh ev.unicode
-            | .full => fullOrPanic fun c => commitOrInsert sh c
-          else .ok (sh, .spin .bell)
-  | .english =>
-    match sh.options.characterForm with
-    | .half => commitOrInsert sh ev.unicode
-    | .full => fullOrPanic fun c => commitOrInsert sh c
+    else if ev.mods.isNone then
+      if (env.keyPress sh.syl ev).1 == .absorb then
+        .ok ({ sh with syl := (env.keyPress sh.syl ev).2 }, .toState .enteringSyllable)
+      else chineseFallback { sh with syl := (env.keyPress sh.syl ev).2 } ev
+    else chineseFallback sh ev
+  | .english => inputChar sh ev
 
-/-- `impl State for Entering`: `next` -/
+/-! `impl State for Entering`: the arms of `next`, one definition each -/
+
+def enteringBackspace (sh : Shared D L) : StepRes D L :=
+  if sh.com.isEmpty then .ok (sh, .spin .ignore)
+  else withCom sh sh.com.removeBeforeCursor fun sh => .ok (sh, .spin .absorb)
+
+/-- result of an add-phrase attempt as a transition -/
+def learnTrans (r : Outcome (Shared D L × Bool)) : StepRes D L :=
+  match r with
+  | .ok (sh', okk) => .ok (sh', .spin (if okk then .absorb else .bell))
+  | .panic p => .panic p
+  | .outOfFuel => .outOfFuel
+
+/-- Ctrl + digit: open the symbol table (0, 1) or add the `n` symbols before/after the cursor as a phrase -/
+def enteringCtrlDigit (sh : Shared D L) (c : Nat) : StepRes D L :=
+  if c == KC.n0 || c == KC.n1 then .ok (sh, .toState (.selecting (newSymbol sh)))
+  else
+    let cur := sh.com.cursor
+    match sh.options.userPhraseAddDir with
+    | .forward => learnTrans (Shared.learnInRangeNotify env sh cur (cur + c))
+    | .backward =>
+      if cur ≥ c then learnTrans (Shared.learnInRangeNotify env sh (cur - c) cur)
+      else .ok ({ sh with noticeBuf := Shared.msgFail }, .spin .bell)
+
+/-- Tab inside the buffer: glue at an interval end, otherwise break -/
+def enteringTabInside (sh : Shared D L) : StepRes D L :=
+  match Shared.conversion env sh with
+  | .ok ivs =>
+    if (ivs.map (·.stop)).contains sh.com.cursor then
+      withCom sh sh.com.insertGlue fun sh => .ok (sh, .spin .absorb)
+    else withCom sh sh.com.insertBreak fun sh => .ok (sh, .spin .absorb)
+  | .panic p => .panic p
+  | .outOfFuel => .outOfFuel
+
+def enteringDel (sh : Shared D L) : StepRes D L :=
+  if sh.com.isEob then .ok (sh, .spin .ignore)
+  else withCom sh sh.com.removeAfterCursor fun sh => .ok (sh, .spin .absorb)
+
+def enteringShiftLeft (sh : Shared D L) : StepRes D L :=
+  if sh.com.isBob then .ok (sh, .spin .ignore)
+  else .ok (sh, .toState (.highlighting (sh.com.cursor - 1)))
+
+def enteringShiftRight (sh : Shared D L) : StepRes D L :=
+  if sh.com.isEob then .ok (sh, .spin .ignore)
+  else .ok (sh, .toState (.highlighting (sh.com.cursor + 1)))
+
+def enteringEnter (sh : Shared D L) : StepRes D L :=
+  match Shared.commit env sh with
+  | .ok sh' => .ok (sh', .spin .commit)
+  | .panic p => .panic p
+  | .outOfFuel => .outOfFuel
+
+def enteringEsc (sh : Shared D L) : StepRes D L :=
+  if sh.options.escClearAllBuffer && !sh.com.isEmpty then
+    .ok ({ sh with com := sh.com.clear }, .spin .absorb)
+  else .ok (sh, .spin .ignore)
+
+/-- the keys that are passed through (ignored) when the buffer is empty -/
+def isIdleKey (c : Nat) : Bool :=
+  c == KC.enter || c == KC.esc || c == KC.tab || c == KC.home || c == KC.end_ || c == KC.left
+    || c == KC.right || c == KC.up || c == KC.down || c == KC.pageUp || c == KC.pageDown
+
+/-- `impl State for Entering`: `next` (arm order of the Rust `match`) -/
 def enteringNext (sh : Shared D L) (ev : KeyEvent) : StepRes D L :=
-  let c := ev.code
-  if c == KC.backspace then
-    if sh.com.isEmpty then .ok (sh, .spin .ignore)
-    else withCom sh sh.com.removeBeforeCursor fun sh => .ok (sh, .spin .absorb)
-  else if c == KC.unknown && ev.mods.capslock then
-    .ok (Shared.switchLanguageMode sh, .spin .absorb)
-  else if isDigitCode c && ev.mods.ctrl then
-    if c == KC.n0 || c == KC.n1 then .ok (sh, .toState (.selecting (newSymbol sh)))
-    else
-      let n := c
-      let cur := sh.com.cursor
-      match sh.options.userPhraseAddDir with
-      | .forward =>
-        match Shared.learnInRangeNotify env sh cur (cur + n) with
-        | .ok (sh', okk) => .ok (sh', .spin (if okk then .absorb else .bell))
-        | .panic p => .panic p
-        | .outOfFuel => .outOfFuel
-      | .backward =>
-        if cur ≥ n then
-          match Shared.learnInRangeNotify env sh (cur - n) cur with
-          | .ok (sh', okk) => .ok (sh', .spin (if okk then .absorb else .bell))
-          | .panic p => .panic p
-          | .outOfFuel => .outOfFuel
-        else .ok ({ sh with noticeBuf := Shared.msgFail }, .spin .bell)
-  else if (c == KC.enter || c == KC.esc || c == KC.tab || c == KC.home || c == KC.end_ || c == KC.left
-      || c == KC.right || c == KC.up || c == KC.down || c == KC.pageUp || c == KC.pageDown)
-      && sh.com.isEmpty then
-    .ok (sh, .spin .ignore)
-  else if c == KC.tab && sh.com.isEob then
-    .ok ({ sh with nth := sh.nth + 1 }, .spin .absorb)
-  else if c == KC.tab then
-    match Shared.conversion env sh with
-    | .ok ivs =>
-      if (ivs.map (·.stop)).contains sh.com.cursor then
-        withCom sh sh.com.insertGlue fun sh => .ok (sh, .spin .absorb)
-      else withCom sh sh.com.insertBreak fun sh => .ok (sh, .spin .absorb)
-    | .panic p => .panic p
-    | .outOfFuel => .outOfFuel
-  else if c == KC.del then
-    if sh.com.isEob then .ok (sh, .spin .ignore)
-    else withCom sh sh.com.removeAfterCursor fun sh => .ok (sh, .spin .absorb)
-  else if c == KC.home then
-    .ok ({ sh with com := sh.com.moveToBeginning }, .spin .absorb)
-  else if c == KC.left && ev.mods.shift then
-    if sh.com.isBob then .ok (sh, .spin .ignore)
-    else .ok (sh, .toState (.highlighting (sh.com.cursor - 1)))
-  else if c == KC.right && ev.mods.shift then
-    if sh.com.isEob then .ok (sh, .spin .ignore)
-    else .ok (sh, .toState (.highlighting (sh.com.cursor + 1)))
-  else if c == KC.left then
-    .ok ({ sh with com := sh.com.moveLeft }, .spin .absorb)
-  else if c == KC.right then
-    .ok ({ sh with com := sh.com.moveRight }, .spin .absorb)
-  else if c == KC.up then .ok (sh, .spin .ignore)
-  else if c == KC.space && ev.mods.shift && sh.options.enableFullwidthToggleKey then
+  if ev.code == KC.backspace then enteringBackspace sh
+  else if ev.code == KC.unknown && ev.mods.capslock then .ok (Shared.switchLanguageMode sh, .spin .absorb)
+  else if isDigitCode ev.code && ev.mods.ctrl then enteringCtrlDigit env sh ev.code
+  else if isIdleKey ev.code && sh.com.isEmpty then .ok (sh, .spin .ignore)
+  else if ev.code == KC.tab && sh.com.isEob then .ok ({ sh with nth := sh.nth + 1 }, .spin .absorb)
+  else if ev.code == KC.tab then enteringTabInside env sh
+  else if ev.code == KC.del then enteringDel sh
+  else if ev.code == KC.home then .ok ({ sh with com := sh.com.moveToBeginning }, .spin .absorb)
+  else if ev.code == KC.left && ev.mods.shift then enteringShiftLeft sh
+  else if ev.code == KC.right && ev.mods.shift then enteringShiftRight sh
+  else if ev.code == KC.left then .ok ({ sh with com := sh.com.moveLeft }, .spin .absorb)
+  else if ev.code == KC.right then .ok ({ sh with com := sh.com.moveRight }, .spin .absorb)
+  else if ev.code == KC.up then .ok (sh, .spin .ignore)
+  else if ev.code == KC.space && ev.mods.shift && sh.options.enableFullwidthToggleKey then
     .ok (Shared.switchCharacterForm sh, .spin .absorb)
-  else if c == KC.space && sh.options.spaceIsSelectKey && sh.options.languageMode == .chinese then
+  else if ev.code == KC.space && sh.options.spaceIsSelectKey && sh.options.languageMode == .chinese then
     startSelectingOrInputSpace env sh
-  else if c == KC.down then startSelecting env sh
-  else if c == KC.end_ || c == KC.pageUp || c == KC.pageDown then
+  else if ev.code == KC.down then startSelecting env sh
+  else if ev.code == KC.end_ || ev.code == KC.pageUp || ev.code == KC.pageDown then
     .ok ({ sh with com := sh.com.moveToEnd }, .spin .absorb)
-  else if c == KC.enter then
-    match Shared.commit env sh with
-    | .ok sh' => .ok (sh', .spin .commit)
-    | .panic p => .panic p
-    | .outOfFuel => .outOfFuel
-  else if c == KC.esc then
-    if sh.options.escClearAllBuffer && !sh.com.isEmpty then
-      .ok ({ sh with com := sh.com.clear }, .spin .absorb)
-    else .ok (sh, .spin .ignore)
-  else if ev.mods.numlock then
-    commitOrInsert sh ev.unicode
+  else if ev.code == KC.enter then enteringEnter env sh
+  else if ev.code == KC.esc then enteringEsc sh
+  else if ev.mods.numlock then commitOrInsert sh ev.unicode
   else enteringDefault env sh ev
+
+/-- `EnteringSyllable`: the layout has answered `beh` (its new state is already in `sh`) -/
+def syllableAnswer (sh : Shared D L) (beh : LayoutBeh) : StepRes D L :=
+  match beh with
+  | .absorb => .ok (sh, .spin .absorb)
+  | .fuzzy s =>
+    if env.hasPhrase sh.dict [s] sh.options.lookupStrategy then
+      withCom sh (sh.com.insert (.syl s)) fun sh => .ok (sh, .spin .absorb)
+    else .ok (sh, .spin .absorb)
+  | .commit =>
+    if env.hasPhrase sh.dict [env.read sh.syl] sh.options.lookupStrategy then
+      withCom sh (sh.com.insert (.syl (env.read sh.syl))) fun sh =>
+        if sh.options.conversionEngine == .simple then
+          newPhraseSimple { sh with syl := env.clearSyl (env.clearSyl sh.syl) }
+        else .ok ({ sh with syl := env.clearSyl sh.syl }, .toState .entering)
+    else .ok ({ sh with syl := env.clearSyl sh.syl }, .toState .entering)
+  | _ => .ok (sh, .spin .bell)
 
 /-- `impl State for EnteringSyllable`: `next` -/
 def enteringSyllableNext (sh : Shared D L) (ev : KeyEvent) : StepRes D L :=
-  let c := ev.code
-  if c == KC.backspace then
-    let syl' := env.removeLast sh.syl
-    if !env.sylIsEmpty syl' then .ok ({ sh with syl := syl' }, .spin .absorb)
-    else .ok ({ sh with syl := syl' }, .toState .entering)
-  else if c == KC.unknown && ev.mods.capslock then
+  if ev.code == KC.backspace then
+    if !env.sylIsEmpty (env.removeLast sh.syl) then .ok ({ sh with syl := env.removeLast sh.syl }, .spin .absorb)
+    else .ok ({ sh with syl := env.removeLast sh.syl }, .toState .entering)
+  else if ev.code == KC.unknown && ev.mods.capslock then
     .ok (Shared.switchLanguageMode { sh with syl := env.clearSyl sh.syl }, .toState .entering)
-  else if c == KC.esc then
-    let sh := { sh with syl := env.clearSyl sh.syl }
-    let sh := if sh.options.escClearAllBuffer then { sh with com := sh.com.clear } else sh
-    .ok (sh, .toState .entering)
+  else if ev.code == KC.esc then
+    if sh.options.escClearAllBuffer then
+      .ok ({ sh with syl := env.clearSyl sh.syl, com := sh.com.clear }, .toState .entering)
+    else .ok ({ sh with syl := env.clearSyl sh.syl }, .toState .entering)
   else
-    let (beh, syl') := match sh.options.lookupStrategy with
-      | .fuzzyPartialPrefix => env.fuzzyKeyPress sh.syl ev
-      | .standard => env.keyPress sh.syl ev
-    let sh := { sh with syl := syl' }
-    match beh with
-    | .absorb => .ok (sh, .spin .absorb)
-    | .fuzzy s =>
-      if env.hasPhrase sh.dict [s] sh.options.lookupStrategy then
-        withCom sh (sh.com.insert (.syl s)) fun sh => .ok (sh, .spin .absorb)
-      else .ok (sh, .spin .absorb)
-    | .commit =>
-      let s := env.read sh.syl
-      if env.hasPhrase sh.dict [s] sh.options.lookupStrategy then
-        withCom sh (sh.com.insert (.syl s)) fun sh =>
-          let sh := { sh with syl := env.clearSyl sh.syl }
-          if sh.options.conversionEngine == .simple then
-            newPhraseSimple { sh with syl := env.clearSyl sh.syl }
-          else .ok (sh, .toState .entering)
-      else .ok ({ sh with syl := env.clearSyl sh.syl }, .toState .entering)
-    | _ => .ok (sh, .spin .bell)
+    match sh.options.lookupStrategy with
+    | .fuzzyPartialPrefix =>
+      syllableAnswer env { sh with syl := (env.fuzzyKeyPress sh.syl ev).2 } (env.fuzzyKeyPress sh.syl ev).1
+    | .standard =>
+      syllableAnswer env { sh with syl := (env.keyPress sh.syl ev).2 } (env.keyPress sh.syl ev).1
 
 /-- `Selecting::candidates` -/
 def Selecting.candidates (s : Selecting) (sh : Shared D L) : Outcome (List Text) :=
@@ -966,63 +975,76 @@ structure SelRes (D L : Type) where
   sel : Selecting
   trans : Trans
 
-def selectingNext (s : Selecting) (sh : Shared D L) (ev : KeyEvent) : Outcome (SelRes D L) :=
-  let c := ev.code
-  let toEntering (sh : Shared D L) : Outcome (SelRes D L) := .ok ⟨sh, s, .toState .entering⟩
-  if ev.mods.ctrl || ev.mods.shift then .ok ⟨sh, s, .spin .bell⟩
-  else if c == KC.backspace then toEntering (Shared.cancelSelecting sh)
-  else if c == KC.unknown && ev.mods.capslock then
-    toEntering (Shared.cancelSelecting (Shared.switchLanguageMode sh))
-  else if c == KC.up then toEntering (Shared.cancelSelecting sh)
-  else if c == KC.down || c == KC.space then
-    match Selecting.totalPage env s sh with
-    | .ok tp =>
-      if s.pageNo + 1 < tp then .ok ⟨sh, { s with pageNo := s.pageNo + 1 }, .spin .absorb⟩
-      else
-        match s.sel with
-        | .phrase p =>
-          match PhraseSel.next env p sh.dict with
-          | .ok p' => .ok ⟨sh, { s with pageNo := 0, sel := .phrase p' }, .spin .absorb⟩
-          | .panic q => .panic q
-          | .outOfFuel => .outOfFuel
-        | _ => .ok ⟨sh, { s with pageNo := 0 }, .spin .absorb⟩
-    | .panic q => .panic q
-    | .outOfFuel => .outOfFuel
-  else if c == KC.j || c == KC.k then
-    if sh.com.isEmpty then .ok ⟨sh, s, .spin .ignore⟩
+/-- Down / Space: next page, or (at the last page) page 0 and the next phrase range -/
+def selDownSpace (s : Selecting) (sh : Shared D L) : Outcome (SelRes D L) :=
+  match Selecting.totalPage env s sh with
+  | .ok tp =>
+    if s.pageNo + 1 < tp then .ok ⟨sh, { s with pageNo := s.pageNo + 1 }, .spin .absorb⟩
     else
-      let begin := match s.sel with
-        | .phrase p => p.begin_
-        | _ => sh.com.cursor
-      let com := if c == KC.j then sh.com.moveCursor (begin - 1)
-                 else (sh.com.moveCursor (begin + 1)).clampCursor
-      let sh := { sh with com := com }
-      match retarget env s sh with
-      | .ok (sh', .toState (.selecting s')) => .ok ⟨sh', s', .spin .absorb⟩
-      | .ok (sh', t) => .ok ⟨sh', s, t⟩
-      | .panic q => .panic q
-      | .outOfFuel => .outOfFuel
-  else if c == KC.left || c == KC.pageUp then
-    if s.pageNo > 0 then .ok ⟨sh, { s with pageNo := s.pageNo - 1 }, .spin .absorb⟩
-    else match Selecting.totalPage env s sh with
-      | .ok tp => .ok ⟨sh, { s with pageNo := tp - 1 }, .spin .absorb⟩
-      | .panic q => .panic q
-      | .outOfFuel => .outOfFuel
-  else if c == KC.right || c == KC.pageDown then
-    match Selecting.totalPage env s sh with
-    | .ok tp =>
-      if s.pageNo + 1 < tp then .ok ⟨sh, { s with pageNo := s.pageNo + 1 }, .spin .absorb⟩
-      else .ok ⟨sh, { s with pageNo := 0 }, .spin .absorb⟩
+      match s.sel with
+      | .phrase p =>
+        match PhraseSel.next env p sh.dict with
+        | .ok p' => .ok ⟨sh, { s with pageNo := 0, sel := .phrase p' }, .spin .absorb⟩
+        | .panic q => .panic q
+        | .outOfFuel => .outOfFuel
+      | _ => .ok ⟨sh, { s with pageNo := 0 }, .spin .absorb⟩
+  | .panic q => .panic q
+  | .outOfFuel => .outOfFuel
+
+/-- `j` / `k`: move the selection to the previous / next symbol -/
+def selMove (s : Selecting) (sh : Shared D L) (isJ : Bool) : Outcome (SelRes D L) :=
+  if sh.com.isEmpty then .ok ⟨sh, s, .spin .ignore⟩
+  else
+    let begin := match s.sel with
+      | .phrase p => p.begin_
+      | _ => sh.com.cursor
+    let com := if isJ then sh.com.moveCursor (begin - 1)
+               else (sh.com.moveCursor (begin + 1)).clampCursor
+    match retarget env s { sh with com := com } with
+    | .ok (sh', .toState (.selecting s')) => .ok ⟨sh', s', .spin .absorb⟩
+    | .ok (sh', _) => .ok ⟨sh', s, .spin .absorb⟩
     | .panic q => .panic q
     | .outOfFuel => .outOfFuel
-  else if isDigitCode c then
-    match Selecting.select env s sh (c - 1) with
-    | .ok (s', sh', t) => .ok ⟨sh', s', t⟩
+
+/-- Left / PageUp -/
+def selPrevPage (s : Selecting) (sh : Shared D L) : Outcome (SelRes D L) :=
+  if s.pageNo > 0 then .ok ⟨sh, { s with pageNo := s.pageNo - 1 }, .spin .absorb⟩
+  else match Selecting.totalPage env s sh with
+    | .ok tp => .ok ⟨sh, { s with pageNo := tp - 1 }, .spin .absorb⟩
     | .panic q => .panic q
     | .outOfFuel => .outOfFuel
-  else if c == KC.esc then
-    toEntering { sh with com := (Shared.cancelSelecting sh).com.popCursor }
-  else if c == KC.del then .ok ⟨sh, s, .spin .absorb⟩
+
+/-- Right / PageDown -/
+def selNextPage (s : Selecting) (sh : Shared D L) : Outcome (SelRes D L) :=
+  match Selecting.totalPage env s sh with
+  | .ok tp =>
+    if s.pageNo + 1 < tp then .ok ⟨sh, { s with pageNo := s.pageNo + 1 }, .spin .absorb⟩
+    else .ok ⟨sh, { s with pageNo := 0 }, .spin .absorb⟩
+  | .panic q => .panic q
+  | .outOfFuel => .outOfFuel
+
+/-- a digit key: choose candidate `digit - 1` of the current page -/
+def selDigit (s : Selecting) (sh : Shared D L) (c : Nat) : Outcome (SelRes D L) :=
+  match Selecting.select env s sh (c - 1) with
+  | .ok (s', sh', t) => .ok ⟨sh', s', t⟩
+  | .panic q => .panic q
+  | .outOfFuel => .outOfFuel
+
+def selectingNext (s : Selecting) (sh : Shared D L) (ev : KeyEvent) : Outcome (SelRes D L) :=
+  if ev.mods.ctrl || ev.mods.shift then .ok ⟨sh, s, .spin .bell⟩
+  else if ev.code == KC.backspace then .ok ⟨Shared.cancelSelecting sh, s, .toState .entering⟩
+  else if ev.code == KC.unknown && ev.mods.capslock then
+    .ok ⟨Shared.cancelSelecting (Shared.switchLanguageMode sh), s, .toState .entering⟩
+  else if ev.code == KC.up then .ok ⟨Shared.cancelSelecting sh, s, .toState .entering⟩
+  else if ev.code == KC.down || ev.code == KC.space then selDownSpace env s sh
+  else if ev.code == KC.j then selMove env s sh true
+  else if ev.code == KC.k then selMove env s sh false
+  else if ev.code == KC.left || ev.code == KC.pageUp then selPrevPage env s sh
+  else if ev.code == KC.right || ev.code == KC.pageDown then selNextPage env s sh
+  else if isDigitCode ev.code then selDigit env s sh ev.code
+  else if ev.code == KC.esc then
+    .ok ⟨{ sh with com := (Shared.cancelSelecting sh).com.popCursor }, s, .toState .entering⟩
+  else if ev.code == KC.del then .ok ⟨sh, s, .spin .absorb⟩
   else .ok ⟨sh, s, .spin .bell⟩
 
 /-- `impl State for Highlighting`: `next`; returns the (possibly moved) highlight cursor too -/
@@ -1174,6 +1196,48 @@ def Editor.jump (e : Editor D L) (which : Nat) : Outcome (Editor D L × Bool) :=
         | .outOfFuel => .outOfFuel
     | _ => .ok (e, false)
   | _ => .ok (e, false)
+
+/-! ### operation sequences (histories) -/
+
+/-- the public operations of `Editor` as data -/
+inductive Op (L : Type) where
+  | key (ev : KeyEvent)
+  | select (n : Nat)
+  | startSelecting | cancelSelecting | commit | clear | ack | clearSyl
+  | setOptions (o : Options)
+  /-- `set_syllable_editor` -/
+  | setLayout (l : L)
+  /-- `set_conversion_engine` -/
+  | setEngine (k : EngineKind)
+  | learn (syllables : List Nat) (phrase : Text)
+  | unlearn (syllables : List Nat) (phrase : Text)
+  | jump (which : Nat)
+
+/-- one operation (return codes dropped) -/
+def Editor.apply (e : Editor D L) : Op L → Outcome (Editor D L)
+  | .key ev => (e.processKey env ev).map (·.1)
+  | .select n => (e.select env n).map (·.1)
+  | .startSelecting => (e.startSelecting env).map (·.1)
+  | .cancelSelecting => .ok e.cancelSelecting.1
+  | .commit => (e.commit env).map (·.1)
+  | .clear => .ok (e.clear env)
+  | .ack => .ok e.ack
+  | .clearSyl => .ok (e.clearSyllableEditor env)
+  | .setOptions o => .ok (e.setOptions env o)
+  | .setLayout l => .ok { e with shared := { e.shared with syl := l } }
+  | .setEngine k => .ok { e with shared := { e.shared with engine := k } }
+  | .learn k p => (Shared.learnPhrase env e.shared k p).map fun (sh, _) => { e with shared := sh }
+  | .unlearn k p => .ok { e with shared := Shared.unlearnPhrase env e.shared k p }
+  | .jump w => (e.jump env w).map (·.1)
+
+/-- a history -/
+def Editor.run (e : Editor D L) : List (Op L) → Outcome (Editor D L)
+  | [] => .ok e
+  | op :: ops =>
+    match e.apply env op with
+    | .ok e' => Editor.run e' ops
+    | .panic p => .panic p
+    | .outOfFuel => .outOfFuel
 
 end
 
